@@ -2,8 +2,11 @@
 find_valid_neighbors (pandora/img_tools.py) -> Generated/Interp.lean
 
 Extracted with `ast` only: the direction tables (`dirs = np.array([...])`), the flag updates
-(`out_val[col, row] -= cst.X [* msk[arg_valid]]`), the constants tested (`valid[...] & cst.X`), the bounds of the
-path loops (`range(1, max_path_length)` / `range(max_path_length)`) and the order of the two passes of each method.
+(`out_val[col, row] -= cst.X [* msk[arg_valid]]`, then `+= cst.Y` or `|= cst.Y`), the operator that raises a bit
+(`+` or `|`, the same everywhere), the constants tested (`valid[...] & cst.X`), the bounds of the path loops
+(`range(1, max_path_length)` / `range(max_path_length)`), the initial value of the mc-cnn accumulator (`np.zeros(16)` /
+`np.full(16, np.nan)`), the guards under which a pixel is filled (`if np.isfinite(...).any():` …) and the order of the
+two passes of each method.
 """
 from __future__ import annotations
 
@@ -65,6 +68,8 @@ def flag_ops(fn: ast.FunctionDef):
                 op = "-"
             elif isinstance(node.op, ast.Add):
                 op = "+"
+            elif isinstance(node.op, ast.BitOr):
+                op = "|"
             else:
                 raise Unsupported(f"{fn.name}: unsupported update operator on out_val: {type(node.op).__name__}")
             idx = ast.unparse(node.target.slice)
@@ -87,6 +92,39 @@ def flag_ops(fn: ast.FunctionDef):
                     raise Unsupported(f"{fn.name}: plain assignment to out_val")
     out.sort()
     return [(op, name, masked) for (_l, _c, op, name, masked) in out]
+
+
+def acc_init(fn: ast.FunctionDef):
+    """how `interp_mismatched` is initialised: "zeros" or "nan" """
+    for node in ast.walk(fn):
+        if isinstance(node, ast.Assign) and len(node.targets) == 1 and isinstance(node.targets[0], ast.Name) \
+                and node.targets[0].id == "interp_mismatched":
+            src = ast.unparse(node.value).replace(" ", "")
+            if src.startswith("np.zeros(16,"):
+                return "zeros"
+            if src.startswith("np.full(16,np.nan,"):
+                return "nan"
+            raise Unsupported(f"{fn.name}: unsupported accumulator initialisation {src[:60]}")
+    raise Unsupported(f"{fn.name}: accumulator interp_mismatched not found")
+
+
+def guards(fn: ast.FunctionDef):
+    """tests of the `if` statements that directly enclose an update of out_val, other than the flag tests
+    (`valid[...] & cst.X`), the mask test of the occlusion kernel (`arg_valid == 0`) and the 3x3 test of sgm, in source order"""
+    out = []
+    for node in ast.walk(fn):
+        if isinstance(node, ast.If):
+            direct = any(isinstance(b, ast.AugAssign) and isinstance(b.target, ast.Subscript)
+                         and isinstance(b.target.value, ast.Name) and b.target.value.id == "out_val"
+                         for b in node.body + node.orelse)
+            if not direct:
+                continue
+            test = ast.unparse(node.test).replace("\n", " ")
+            if "cst." in test or test.replace(" ", "") == "arg_valid==0":
+                continue
+            out.append((node.lineno, test))
+    out.sort()
+    return [t for (_l, t) in out]
 
 
 def tested(fn: ast.FunctionDef):
@@ -134,7 +172,7 @@ def pass_order(cls: ast.ClassDef):
 
 def extract():
     mod = parse(SRC)
-    data = {"dirs": {}, "ops": {}, "tested": {}, "ranges": {}, "order": {}}
+    data = {"dirs": {}, "ops": {}, "tested": {}, "ranges": {}, "order": {}, "guards": {}}
     for cls_name, fn_name in KERNELS:
         cls = find_class(mod, cls_name)
         fn = find_method(cls, fn_name)
@@ -144,6 +182,13 @@ def extract():
         data["ops"][fn_name] = flag_ops(fn)
         data["tested"][fn_name] = tested(fn)
         data["ranges"][fn_name] = path_ranges(fn)
+        data["guards"][fn_name] = guards(fn)
+        if fn_name == "interpolate_mismatch_mc_cnn":
+            data["acc_init"] = acc_init(fn)
+    raising = {op for ops in data["ops"].values() for (op, _n, _m) in ops if op != "-"}
+    if len(raising) != 1:
+        raise Unsupported(f"the kernels raise their bits with different operators: {sorted(raising)}")
+    data["raise_op"] = raising.pop()
     for cls_name in ("McCnnInterpolation", "SgmInterpolation"):
         data["order"][cls_name] = pass_order(find_class(mod, cls_name))
     fvn = find_function(parse(SRC2), "find_valid_neighbors")
@@ -196,6 +241,17 @@ def render(data) -> str:
         for fn, rngs in data["ranges"].items()))
     lines.append("]")
     lines.append("")
+    lines.append("/-- the operator with which a kernel raises the new bit: \"+\" (`+=`) or \"|\" (`|=`) -/")
+    lines.append(f"def raiseOp : String := {lean_str(data['raise_op'])}")
+    lines.append("")
+    lines.append("/-- `interp_mismatched = np.zeros(16, …)` (\"zeros\") or `np.full(16, np.nan, …)` (\"nan\") -/")
+    lines.append(f"def accInit : String := {lean_str(data['acc_init'])}")
+    lines.append("")
+    lines.append("/-- per kernel: the conditions under which a flagged pixel is filled (beyond the flag tests) -/")
+    lines.append("def guards : List (String × List String) := [")
+    lines.append(",\n".join(f"  ({lean_str(fn)}, {lean_list([lean_str(t) for t in ts])})" for fn, ts in data["guards"].items()))
+    lines.append("]")
+    lines.append("")
     lines.append("/-- per method: what `interpolated_disparity` calls, in order -/")
     lines.append("def passOrder : List (String × List String) := [")
     lines.append(",\n".join(f"  ({lean_str(c)}, {lean_list([lean_str(n) for n in names])})" for c, names in data["order"].items()))
@@ -208,4 +264,24 @@ def render(data) -> str:
 def generate():
     data = extract()
     write_if_changed("Interp.lean", render(data))
-    return {"T2b": {"source": [SRC, SRC2], "digest": digest(SRC, SRC2), "kernels": len(data["ops"])}}
+    return {"T2b": {"source": [SRC, SRC2], "digest": digest(SRC, SRC2), "kernels": len(data["ops"]),
+                    "raise_op": data["raise_op"], "variant": variant_of(data)}}
+
+
+EXPECTED_GUARDS = {
+    "interpolate_occlusion_mc_cnn": [],
+    "interpolate_mismatch_mc_cnn": ["np.isfinite(interp_mismatched).any()"],
+    "interpolate_mismatch_sgm": ["np.isfinite(valid_neighbors).any()"],
+    "interpolate_occlusion_sgm": ["np.sum(np.isfinite(valid_neighbors)) >= 2"],
+}
+
+
+def variant_of(data) -> str:
+    """the variant of the Lean model that reads like this source: "guard+or", "guard+add", "noguard+or", "noguard+add";
+    "unknown" when the guards are neither all there nor all absent (the proof obligation `source_variant` then fails)"""
+    op = {"+": "add", "|": "or"}[data["raise_op"]]
+    if data["acc_init"] == "nan" and data["guards"] == EXPECTED_GUARDS:
+        return "guard+" + op
+    if data["acc_init"] == "zeros" and all(not g for g in data["guards"].values()):
+        return "noguard+" + op
+    return "unknown"
